@@ -86,7 +86,7 @@ return isinstance(v.is_valid, bool) and isinstance(v.num_failures, int)
     return mk_case(f"c07.callable.{pre or 'value'}.{name}.{docid}", params, body, pre=pre_l, stubs=["sym_repr"])
 
 
-CAST_POOL = ["'true'", "'False'", "'TRUE'", "'3'", "'-2'", "'x'", "''", "'1.5'", "' 7 '"]
+CAST_POOL = ["'true'", "'False'", "'TRUE'", "'3'", "'-2'", "'x'", "''", "'1.5'", "' 7 '", "'inf'", "'-Infinity'", "'1e999'", "'nan'", "'3.0'", "'1e3'", "'0x1F'", "'١٢'"]
 CASTS = {
     "bool": "{str: valida.casting.cast_string_to_bool}",
     "int": "{str: int}",
